@@ -74,7 +74,8 @@ def outer : Nat → Stream → Bool → List Sig → Res
           | .other :: rest' => outer fuel { s with toks := rest' } found acc   -- Decode(&ignore)
           | _ :: _ => .error acc                   -- structure the generator never produces
           | [] => if s.partialTail then .error acc  -- ignored Decode error, then Token() reports it
-                  else .error acc                   -- key without value at EOF: next Token() fails
+                  -- key, then clean EOF: the ignored Decode fails silently and More() ends the loop
+                  else outer fuel { s with toks := [] } found acc
       | _ => .error acc                            -- partial key / non-string token
     else
       if found then .ok acc else .error acc         -- missing 'signatures' array
